@@ -23,7 +23,7 @@ echo "package tests with change: $suite"
 cd /repo
 git apply $dst/patch.diff || { echo "patch does not apply in /repo"; exit 2; }
 cp /verif/evidence/$id.json /tmp/seedtest.ev.$$ 2>/dev/null
-trap 'git -C /repo checkout -- .; [ -f /tmp/seedtest.ev.$$ ] && mv /tmp/seedtest.ev.$$ /verif/evidence/$id.json' EXIT
+trap 'git -C /repo checkout -- .; [ -f /tmp/seedtest.ev.$$ ] && mv /tmp/seedtest.ev.$$ /verif/evidence/$id.json' EXIT INT TERM
 cd /verif
 out=$(./bin/gosym run --check checks/$id.json --tier quick ${only:+--only "$only"} 2>&1)
 echo "$out" | grep -E "^(VIOLATION|INCONCLUSIVE|property=)|violated:" | cut -c1-400 | head -8
